@@ -58,6 +58,47 @@ theorem dEuclid_perm {nb nb' : List Nat} (h : nb.Perm nb') (a b : Nat → K) :
     dEuclid (nb.map a) (nb.map b) = dEuclid (nb'.map a) (nb'.map b) := by
   rw [dEuclid_map, dEuclid_map, (h.map _).sum_eq, h.length_eq]
 
+/-! ### correlation and Poisson-KL distance read off a channel list -/
+
+/-- correlation distance of two patterns `a`, `b` tabulated over the channel list `l` -/
+def corrOn [HasSqrt K] (l : List Nat) (a b : Nat → K) : K :=
+  let ma := (l.map a).sum / ((l.length : Nat) : K)
+  let mb := (l.map b).sum / ((l.length : Nat) : K)
+  let sa := HasSqrt.sqrt ((l.map (fun j => (a j - ma) * (a j - ma))).sum)
+  let sb := HasSqrt.sqrt ((l.map (fun j => (b j - mb) * (b j - mb))).sum)
+  1 - (l.map (fun j => (a j - ma) / sa * ((b j - mb) / sb))).sum
+
+theorem dCorr_map [HasSqrt K] (l : List Nat) (a b : Nat → K) :
+    dCorr (l.map a) (l.map b) = corrOn l a b := by
+  simp only [dCorr, corrOn, mean, dot, List.map_map, List.zipWith_map, List.zipWith_self,
+    List.length_map, Function.comp_def]
+
+theorem corrOn_perm [HasSqrt K] {l l' : List Nat} (h : l.Perm l') (a b : Nat → K) :
+    corrOn l a b = corrOn l' a b := by
+  have e : ∀ φ : Nat → K, (l.map φ).sum = (l'.map φ).sum := fun φ => (h.map φ).sum_eq
+  simp only [corrOn, e, h.length_eq]
+
+theorem dCorr_perm [HasSqrt K] {l l' : List Nat} (h : l.Perm l') (a b : Nat → K) :
+    dCorr (l.map a) (l.map b) = dCorr (l'.map a) (l'.map b) := by
+  rw [dCorr_map, dCorr_map, corrOn_perm h]
+
+/-- symmetrised Poisson-KL distance of two patterns tabulated over the channel list `l` -/
+def poissonOn [HasLog K] (l : List Nat) (a b : Nat → K) : K :=
+  let w : K := ((1 : Nat) : K) / ((10 : Nat) : K)
+  (l.map (fun j => ((a j + 1 * w) / (1 + w) - (b j + 1 * w) / (1 + w))
+      * (HasLog.log ((a j + 1 * w) / (1 + w)) - HasLog.log ((b j + 1 * w) / (1 + w))))).sum
+    / ((l.length : Nat) : K)
+
+theorem dPoisson_map [HasLog K] (l : List Nat) (a b : Nat → K) :
+    dPoisson (l.map a) (l.map b) = poissonOn l a b := by
+  simp only [dPoisson, poissonOn, List.map_map, List.zipWith_map, List.zipWith_self,
+    List.length_map, Function.comp_def]
+
+theorem dPoisson_perm [HasLog K] {l l' : List Nat} (h : l.Perm l') (a b : Nat → K) :
+    dPoisson (l.map a) (l.map b) = dPoisson (l'.map a) (l'.map b) := by
+  rw [dPoisson_map, dPoisson_map]
+  simp only [poissonOn, (h.map _).sum_eq, h.length_eq]
+
 /-- RDM of the selected columns, written with per-channel condition means -/
 theorem calcRdm_selectCols (d : List K → List K → K) (ev : List Int) (row : List K)
     (rest : List (List K)) (nb : List Nat) :
